@@ -369,9 +369,26 @@ func corruptOps(p *prng.R, m *dyn.Model, g *gen.G, db *ref.DB) ([]ovsdb.Operatio
 	fns := []string{"==", "!=", "<", "<=", ">", ">=", "includes", "excludes", "bogus"}
 	var matrix []string
 	for k := 0; k < 2; k++ {
-		c := t.Cols[p.Intn(len(t.Cols))]
-		matrix = append(matrix, `{"op":"mutate","table":"`+t.Name+`","where":[],"mutations":[["`+c.Name+`","`+muts[p.Intn(len(muts))]+`",`+args[p.Intn(len(args))]+`]]}`)
-		matrix = append(matrix, `{"op":"select","table":"`+t.Name+`","where":[["`+c.Name+`","`+fns[p.Intn(len(fns))]+`",`+args[p.Intn(len(args))]+`]]}`)
+		cn := t.Cols[p.Intn(len(t.Cols))].Name
+		if p.Chance(1, 3) {
+			// pseudo columns and columns the schema does not have, in every position
+			cn = []string{"_uuid", "_version", "no_such_column", ""}[p.Intn(4)]
+		}
+		arg := args[p.Intn(len(args))]
+		matrix = append(matrix, `{"op":"mutate","table":"`+t.Name+`","where":[],"mutations":[["`+cn+`","`+muts[p.Intn(len(muts))]+`",`+arg+`]]}`)
+		matrix = append(matrix, `{"op":"select","table":"`+t.Name+`","where":[["`+cn+`","`+fns[p.Intn(len(fns))]+`",`+arg+`]]}`)
+		switch p.Intn(6) {
+		case 0:
+			matrix = append(matrix, `{"op":"delete","table":"`+t.Name+`","where":[["`+cn+`","`+fns[p.Intn(len(fns))]+`",`+arg+`]]}`)
+		case 1:
+			matrix = append(matrix, `{"op":"update","table":"`+t.Name+`","where":[],"row":{"`+cn+`":`+arg+`}}`)
+		case 2:
+			matrix = append(matrix, `{"op":"insert","table":"`+t.Name+`","row":{"`+cn+`":`+arg+`}}`)
+		case 3:
+			matrix = append(matrix, `{"op":"wait","timeout":0,"table":"`+t.Name+`","where":[["`+cn+`","==",`+arg+`]],"columns":["`+cn+`"],"until":"`+[]string{"==", "!=", "bogus"}[p.Intn(3)]+`","rows":[{"`+cn+`":`+arg+`}]}`)
+		case 4:
+			matrix = append(matrix, `{"op":"select","table":"`+t.Name+`","where":[],"columns":["`+cn+`","`+cn+`"]}`)
+		}
 	}
 	b, _ := json.Marshal(wire)
 	var tree interface{}
@@ -395,6 +412,10 @@ func corruptOps(p *prng.R, m *dyn.Model, g *gen.G, db *ref.DB) ([]ovsdb.Operatio
 		var e interface{}
 		_ = json.Unmarshal([]byte(matrix[p.Intn(len(matrix))]), &e)
 		arr = append(arr, e)
+		if p.Chance(1, 4) {
+			// ... or on its own: no other operation (no named insert) shares the transaction
+			arr = []interface{}{e}
+		}
 	}
 	if p.Chance(1, 30) {
 		arr = []interface{}{}
